@@ -33,7 +33,8 @@ def nontrivial(d, r):
 def knobs_q():
     return flat.Knobs(foreign_models=True, p_raise=0.06, p_cmds=0.35, p_on_exception=0.3, p_queued=1.0,
                       max_models=3, p_bad_dest=0.03, cmd_kinds=(TRIGGER, TRIGGER, TRIGGER, REMOVE),
-                      hist_kinds=(TRIGGER, TRIGGER, TRIGGER, TRIGGER, REMOVE), p_unknown_event=0.05)
+                      hist_kinds=(TRIGGER, TRIGGER, TRIGGER, TRIGGER, REMOVE), p_unknown_event=0.05,
+                      p_custom_attr=0.1, p_ignore_flip=0.15)
 
 
 def knobs_u():
